@@ -111,10 +111,12 @@ fn seeds() -> Vec<Ty> {
         .iter().map(|s| parse_ty(s).unwrap()).collect()
 }
 
-pub fn all_text(d: &[u8], obs: &mut Obs, case: &str) {
+pub fn all_text(d: &[u8], obs: &mut Obs, case: &str) -> String {
+    let mut summary = String::new();
     // tape, DOM, JSON, writer, tape deserializer
     if let Ok(tape) = TextTape::from_slice(d) {
         obs.count("text:tape-ok");
+        summary.push_str(&format!("tape:{}", tape.tokens().len()));
         let mut budget = 5000;
         walk_object(&tape.windows1252_reader(), &mut budget);
         let mut budget = 5000;
@@ -136,12 +138,14 @@ pub fn all_text(d: &[u8], obs: &mut Obs, case: &str) {
         let _ = TextTape::parser().parse_slice_into_tape(d, &mut t2);
     } else {
         obs.count("text:tape-err");
+        summary.push_str("tape:err");
     }
     // readers: slice + buffered with several capacities / schedules, also skip paths
     let mut r = TextReader::from_slice(d);
     let mut n = 0;
     while let Ok(Some(_)) = r.next() { n += 1; if n > 100000 { break; } }
     let _ = r.position();
+    summary.push_str(&format!(" toks:{} pos:{}", n, r.position()));
     // over-read detection: the same bytes as a sub-slice of a larger allocation, followed by guard
     // bytes that would change the result if a scanner looked one byte too far; the result must not
     // depend on the guard (and must equal the plain run)
@@ -205,6 +209,7 @@ pub fn all_text(d: &[u8], obs: &mut Obs, case: &str) {
         }
     }
     leaf(d);
+    summary
 }
 
 pub fn leaf(d: &[u8]) {
@@ -222,10 +227,12 @@ pub fn leaf(d: &[u8]) {
     }
 }
 
-pub fn all_bin(d: &[u8], obs: &mut Obs, _case: &str) {
+pub fn all_bin(d: &[u8], obs: &mut Obs, _case: &str) -> String {
+    let mut summary = String::new();
     let res = resolver();
     if let Ok(tape) = BinaryTape::from_slice(d) {
         obs.count("bin:tape-ok");
+        summary.push_str(&format!("tape:{}", tape.tokens().len()));
         for ty in seeds() {
             for strat in [FailedResolveStrategy::Error, FailedResolveStrategy::Stringify, FailedResolveStrategy::Ignore] {
                 let mut b = BinaryDeserializer::builder_flavor(Flavor);
@@ -242,6 +249,7 @@ pub fn all_bin(d: &[u8], obs: &mut Obs, _case: &str) {
         let _ = jomini::binary::BinaryTapeParser.parse_slice_into_tape(d, &mut t2);
     } else {
         obs.count("bin:tape-err");
+        summary.push_str("tape:err");
     }
     let mut t3 = BinaryTape::default();
     let _ = jomini::binary::BinaryTapeParser.parse_slice_into_tape_unoptimized(d, &mut t3);
@@ -262,6 +270,7 @@ pub fn all_bin(d: &[u8], obs: &mut Obs, _case: &str) {
     let mut lx = Lexer::new(d);
     let mut n = 0;
     while let Ok(Some(t)) = lx.next_token() { n += 1; let mut v = Vec::new(); let _ = t.write(&mut v); if n > 100000 { break; } }
+    summary.push_str(&format!(" toks:{} pos:{}", n, lx.position()));
     let mut lx = Lexer::new(d);
     let _ = lx.peek_id(); let _ = lx.peek_token();
     while let Ok(Some(id)) = lx.next_id() { if lx.skip_value(id).is_err() { break; } }
@@ -304,6 +313,7 @@ pub fn all_bin(d: &[u8], obs: &mut Obs, _case: &str) {
             }
         }
     }
+    summary
 }
 
 fn deep_text(depth: usize) -> Vec<u8> {
@@ -388,8 +398,8 @@ fn run_isolated(entry: &str, depth: usize) -> Result<String, String> {
 pub fn exec(w: &[&str], obs: &mut Obs) -> Option<String> {
     let case = w.join(" ");
     match w {
-        ["x-text", h] => { let d = unhex(h)?; all_text(&d, obs, &case); Some("ok".into()) }
-        ["x-bin", h] => { let d = unhex(h)?; all_bin(&d, obs, &case); Some("ok".into()) }
+        ["x-text", h] => { let d = unhex(h)?; let r = all_text(&d, obs, &case); Some(format!("ok {}", r)) }
+        ["x-bin", h] => { let d = unhex(h)?; let r = all_bin(&d, obs, &case); Some(format!("ok {}", r)) }
         ["x-leaf", h] => { let d = unhex(h)?; leaf(&d); Some("ok".into()) }
         ["x-isochild", entry, depth] => Some(iso_child(entry, depth.parse().ok()?)),
         ["x-iso", entry, depth] => {
